@@ -24,7 +24,7 @@ func RunPath(p *Program, s *smt.Solver, entry *ssa.Function, prefix []Decision, 
 		// the virtual clock starts at a realistic wall-clock reading (ns since 1970), far from the zero time.Time
 		now: 1_700_000_000_000_000_000,
 	}
-	m.Res = &RunResult{Reached: map[string]int{}, Asserts: map[string]int{}, Unknown: map[string]int{}, Funcs: map[string]int{}, Forks: map[string]int{}, Cross: map[string]int{}}
+	m.Res = &RunResult{Reached: map[string]int{}, Asserts: map[string]int{}, BySolver: map[string]int{}, Unknown: map[string]int{}, Funcs: map[string]int{}, Forks: map[string]int{}, Cross: map[string]int{}}
 	s.Reset()
 	g0 := &goroutine{id: 0, resume: make(chan bool)}
 	m.gs = []*goroutine{g0}
@@ -61,6 +61,7 @@ func RunPath(p *Program, s *smt.Solver, entry *ssa.Function, prefix []Decision, 
 			g.resume <- false
 		}
 	}
+	m.Res.SymInputs = len(m.inputs)
 	if len(m.pc) > 0 && len(m.pc) <= 12 {
 		for _, t := range m.pc {
 			m.Res.SamplePC = append(m.Res.SamplePC, t.Pretty())
@@ -77,6 +78,8 @@ type HarnessSummary struct {
 	Violations  map[string]*Violation // first per label
 	ViolCount   map[string]int
 	Asserts     map[string]int
+	BySolver    map[string]int
+	MaxInputs   int // most symbolic inputs on one path
 	Unknown     map[string]int
 	Reached     map[string]int
 	Forks       map[string]int
@@ -115,7 +118,7 @@ func Explore(p *Program, entries []*ssa.Function, cfg ExploreConfig) ([]*Harness
 	sums := make([]*HarnessSummary, len(entries))
 	for i, e := range entries {
 		sums[i] = &HarnessSummary{Name: e.Name(), ByStatus: map[string]int{}, Violations: map[string]*Violation{}, ViolCount: map[string]int{},
-			Asserts: map[string]int{}, Unknown: map[string]int{}, Reached: map[string]int{}, Forks: map[string]int{}, Funcs: map[string]bool{}}
+			Asserts: map[string]int{}, BySolver: map[string]int{}, Unknown: map[string]int{}, Reached: map[string]int{}, Forks: map[string]int{}, Funcs: map[string]bool{}}
 	}
 	var mu sync.Mutex
 	cond := sync.NewCond(&mu)
@@ -194,6 +197,12 @@ func (s *HarnessSummary) absorb(r *RunResult) {
 	}
 	for k, v := range r.Asserts {
 		s.Asserts[k] += v
+	}
+	for k, v := range r.BySolver {
+		s.BySolver[k] += v
+	}
+	if r.SymInputs > s.MaxInputs {
+		s.MaxInputs = r.SymInputs
 	}
 	for k, v := range r.Unknown {
 		s.Unknown[k] += v
